@@ -192,6 +192,24 @@ impl BetTable {
 
         // Parse the rest of the table - data starts after extended header + BET header
         let data_start = 12 + std::mem::size_of::<BetHeader>();
+
+        // The counts come from the (untrusted) table header: the arrays they describe
+        // must be present in the table data before buffers of that size are allocated
+        let flags_size = u64::from(header.flag_count) * 4;
+        let file_table_bits = u64::from(header.file_count) * u64::from(header.table_entry_size);
+        let hashes_size = u64::from(header.bet_hash_array_size / 8) * 8;
+        let available = (table_data.len() - data_start) as u64;
+        if flags_size + file_table_bits.div_ceil(8) + hashes_size > available {
+            return Err(Error::invalid_format(format!(
+                "BET table data too small: {file_count} files of {table_entry_size} bits, {flag_count} flags and {hashes_size} hash bytes do not fit into {available} bytes"
+            )));
+        }
+        if file_count > 0 && table_entry_size == 0 {
+            return Err(Error::invalid_format(
+                "BET table declares files but no bits per table entry",
+            ));
+        }
+
         let mut cursor = std::io::Cursor::new(&table_data[data_start..]);
 
         // Read file flags
